@@ -242,12 +242,19 @@ func (s *socket) NewDialer(addr string, options map[string]interface{}) (mangos.
 	if err != nil {
 		return nil, err
 	}
+	// Take a consistent snapshot of the socket level options.
+	s.Lock()
+	reconnMinTime := s.reconnMinTime
+	reconnMaxTime := s.reconnMaxTime
+	dialAsynch := s.dialAsynch
+	maxRxSize := s.maxRxSize
+	s.Unlock()
 	d := &dialer{
 		d:             td,
 		s:             s,
-		reconnMinTime: s.reconnMinTime,
-		reconnMaxTime: s.reconnMaxTime,
-		asynch:        s.dialAsynch,
+		reconnMinTime: reconnMinTime,
+		reconnMaxTime: reconnMaxTime,
+		asynch:        dialAsynch,
 		addr:          addr,
 	}
 	for n, v := range options {
@@ -267,7 +274,7 @@ func (s *socket) NewDialer(addr string, options map[string]interface{}) (mangos.
 		}
 	}
 	if _, ok := options[mangos.OptionMaxRecvSize]; !ok {
-		err = td.SetOption(mangos.OptionMaxRecvSize, s.maxRxSize)
+		err = td.SetOption(mangos.OptionMaxRecvSize, maxRxSize)
 		if err != nil && err != mangos.ErrBadOption {
 			return nil, err
 		}
@@ -317,7 +324,10 @@ func (s *socket) NewListener(addr string, options map[string]interface{}) (mango
 		}
 	}
 	if _, ok := options[mangos.OptionMaxRecvSize]; !ok {
-		err = tl.SetOption(mangos.OptionMaxRecvSize, s.maxRxSize)
+		s.Lock()
+		maxRxSize := s.maxRxSize
+		s.Unlock()
+		err = tl.SetOption(mangos.OptionMaxRecvSize, maxRxSize)
 		if err != nil && err != mangos.ErrBadOption {
 			return nil, err
 		}
